@@ -135,6 +135,43 @@ func discoveryScenario(c dcfg) *mcx.Scenario {
 				if len(got[0]) != before {
 					fail("discovery/answer-after-end-delivered", "an answer that arrived after Discover returned reached the receiver")
 				}
+				// a discovery whose request cannot be sent (context already cancelled) must leave nothing behind:
+				// a request carrying the same token is then an ordinary request, and the token can be used again
+				{
+					cctx, ccancel := context.WithCancel(context.Background())
+					ccancel()
+					reqTok := message.Token{0xAB, 0xCD}
+					failedGot := 0
+					dreq := pool.NewMessage(cctx)
+					_ = dreq.SetupGet("/failed", reqTok)
+					dreq.SetMessageID(777)
+					dreq.SetType(message.NonConfirmable)
+					var derr error
+					ddone := false
+					vrt.App("discover-failing", func() {
+						derr = u.S.DiscoveryRequest(dreq, "10.0.0.50:5683", func(*client.Conn, *pool.Message) { failedGot++ })
+						ddone = true
+					})
+					vrt.Quiesce("env: failed discovery returned")
+					if !ddone {
+						fail("discovery/discover-did-not-return", "DiscoveryRequest with a cancelled context did not return")
+					} else if derr == nil {
+						// a cancelled context may also be reported as a normal end; either way nothing may stay registered
+						_ = derr
+					}
+					before := unknownHandled
+					u.Send(&net.UDPAddr{IP: net.IPv4(10, 0, 2, 2), Port: 5683}, srvw.EncodeUDP(message.Message{Type: message.NonConfirmable, Code: codes.GET, MessageID: 901, Token: reqTok, Options: message.Options{{ID: message.URIPath, Value: []byte("a")}}}))
+					vrt.Quiesce("env: request with the same token handled")
+					if failedGot != 0 {
+						fail("discovery/stale-receiver-invoked", "a request carrying the token of a discovery that had already returned reached its receiver")
+					}
+					if unknownHandled != before+1 {
+						fail("discovery/request-swallowed-by-stale-receiver", "a request carrying the token of a finished discovery was not handed to the server handler")
+					}
+				}
+				if _, mr, mh := u.S.VerifSizes(); mr != 0 || mh != 0 {
+					fail("discovery/tables-not-empty", "after all discoveries returned the server keeps %d stored requests and %d receivers", mr, mh)
+				}
 				u.S.Stop()
 				vrt.Quiesce("env: stopped")
 			})
